@@ -336,6 +336,25 @@ def discharge_bytes(F, cg, site, pr):
             op = rv["a"]
         elif "len" in rv:
             op = {"copy": {"l": rv["len"]["l"], "proj": []}}
+    def by_term():
+        """the same through provenance terms (the bytes reached through a spliced closure's captured reference)"""
+        if op is None:
+            return None
+        tb = P.strip(pr.operand(op), calls=False)
+        if tb[0] == "call" and tb[1] == "core::str::<impl str>::as_bytes" and len(tb[2]) == 1:
+            a0 = P.strip(tb[2][0])
+            if a0[0] == "param" and not pr.defs.get(a0[1]):
+                return a0[1]
+        return None
+    L_term = by_term()
+    if L_term is not None:
+        need = i + 1
+        len_edges = [e for (e, n) in sf.minlen.get(L_term, []) if n >= need]
+        if len_edges and I.guarded_by(fn, site.block, len_edges) and sf._stable(L_term, len_edges, site.block):
+            return "R-bytes-guard"
+        pe = [e for (e, k) in sf.prefix.get(L_term, []) if k >= need]
+        if pe and I.guarded_by(fn, site.block, pe) and sf._stable(L_term, pe, site.block):
+            return "R-bytes-guard(prefix)"
     for _ in range(3):
         if op is None:
             return None
